@@ -94,6 +94,33 @@ def gen_cases(tier):
     # 7. core function library
     for c in function_cases(thorough):
         yield case('func', c)
+    # 7b. bundled extension functions: EXSLT sets/math/strings/common/dynamic and xalan: set functions
+    A_ = path(step('child', name('a')))
+    B_ = path(step('child', name('b')))
+    ALL_ = path(DOS, step('child', WILD), start='root')
+    ATT_ = path(DOS, step('attribute', name('x')), start='root')
+    EMP_ = path(step('child', name('nosuch')))
+    TXT_ = path(DOS, step('child', TEXTT), start='root')
+    nsx = [A_, B_, ALL_, ATT_, EMP_, TXT_, path(step('self', NODE)), path(step('child', WILD))]
+    for f2 in ('set:difference', 'set:intersection', 'set:has-same-node', 'set:leading', 'set:trailing', 'xalan:difference',
+               'xalan:intersection', 'xalan:hasSameNodes'):
+        for x1 in nsx:
+            for x2 in nsx:
+                yield case('ext', fn(f2, x1, x2))
+    for f1 in ('set:distinct', 'xalan:distinct', 'math:min', 'math:max', 'math:highest', 'math:lowest', 'str:concat'):
+        for x1 in nsx:
+            yield case('ext', fn(f1, x1))
+            yield case('ext', fn('count', fn(f1, x1)) if f1 in ('set:distinct', 'xalan:distinct', 'math:highest', 'math:lowest') else fn('string', fn(f1, x1)))
+    for v in nums:
+        yield case('ext', fn('math:abs', v))
+        yield case('ext', fn('str:padding', v, s('ab')))
+        yield case('ext', fn('str:padding', v))
+    for v in atoms:
+        yield case('ext', fn('exsl:object-type', v))
+    for text in ('count ( // a )', 'a | b', '1 + 2 * 3', "'s'", '..', '@ x', 'last ( )', 'a [ 1 ]', '1 +', ') (', ''):
+        yield case('ext', fn('dyn:evaluate', s(text)))
+        if text not in ('1 +', ') (', ''):
+            yield case('ext', fn('xalan:evaluate', s(text)))
     # 8. precedence and associativity: flat sequences printed without parentheses
     ops = G.BIN_OPS
     small = [num(1), num(2), num(0), s('a'), fn('true'), path(step('child', name('a')))] if thorough else \
